@@ -13,6 +13,7 @@ import Cog.Drv.MergeDrv
 import Cog.Drv.EqualsDrv
 import Cog.Drv.ValidateDrv
 import Cog.Drv.ClosedDrv
+import Cog.Drv.PyDrv
 open Cog.Drv
 
 def handle (line : String) : String :=
@@ -52,6 +53,7 @@ def handleIO (line : String) : IO String := do
   | "govalidate" :: rest => govalidateLine (" ".intercalate rest)
   | "gostrict" :: rest => gostrictLine (" ".intercalate rest)
   | "c08hyp" :: rest => c08hypLine (" ".intercalate rest)
+  | "pyroundtrip" :: rest => pyroundtripLine (" ".intercalate rest)
   | _ => return handle line
 
 partial def loop (h : IO.FS.Stream) (out : IO.FS.Stream) : IO Unit := do
